@@ -38,6 +38,18 @@ func beforeChan(c SelCase) Token {
 	return tok
 }
 
+// NewChan registers a channel created by instrumented code (`make(chan T, n)`): whatever was
+// known about a previous channel at the same address is forgotten.
+func NewChan[C any](ch C) C {
+	if s := S; s != nil {
+		v := reflect.ValueOf(ch)
+		if v.Kind() == reflect.Chan && !v.IsNil() {
+			delete(s.closed, v.Pointer())
+		}
+	}
+	return ch
+}
+
 // Sel is the result of Select.
 type Sel struct {
 	Idx int
